@@ -40,10 +40,10 @@ FILE_CHECKS = {
     "ribs/emitters/_gradient_operator_emitter.py": ["C19", "C08", "C12", "C09"],
     "ribs/emitters/_gaussian_emitter.py": ["C08", "C12"],
     "ribs/emitters/_iso_line_emitter.py": ["C08", "C09"],
-    "ribs/emitters/opt/_cma_es.py": ["C18"],
-    "ribs/emitters/opt/_sep_cma_es.py": ["C18"],
-    "ribs/emitters/opt/_lm_ma_es.py": ["C18"],
-    "ribs/emitters/opt/_openai_es.py": ["C18"],
+    "ribs/emitters/opt/_cma_es.py": ["C18", "C08"],
+    "ribs/emitters/opt/_sep_cma_es.py": ["C18", "C08"],
+    "ribs/emitters/opt/_lm_ma_es.py": ["C18", "C08"],
+    "ribs/emitters/opt/_openai_es.py": ["C18", "C08"],
     "ribs/emitters/opt/_adam_opt.py": ["C18", "C19"],
     "ribs/emitters/opt/_gradient_ascent_opt.py": ["C19", "C18"],
     "ribs/emitters/opt/_pycma_es.py": ["C18", "C08", "C09"],
